@@ -338,6 +338,48 @@ def extra_obligations(w, tier, seed):
         for e, ctl in writes: missing |= (_names(e, local, skip_len=True) | set(ctl)) - cov
         out.append(ob(oid, '%s: every local value flowing into the descriptor bytes is determined by the arguments of %s (equal ids => identical descriptors)' % (fname, ast.unparse(call.func)),
                       not missing, 'edb/server/compiler/sertypes.py:%s line %d: %s' % (fname, fn.lineno, sorted(missing))))
+    out += _call_site_obligations()
+    return out
+
+def _call_site_obligations():
+    """whole-package obligation on the users of the encoder (edb/server/compiler/*.py): a descriptor handed to a client is described for THAT request --
+    every call of sertypes.describe / describe_params / describe_sql_result / describe_input_shape passes the request's protocol version and binds its
+    result to local variables of the calling function (or returns it); it is never parked in module-level state or on a long-lived object, where a later
+    request with another protocol version / schema would pick it up."""
+    out = []
+    def ob(oid, clause, ok, where, undecided=False):
+        return dict(id=oid, kind='ownership', clause=clause, tag='property', paths=1, status='discharged' if ok else ('unknown' if undecided else 'failed'),
+                    backend='ast-scan', seconds=0.0, model=None if ok else {'offending_source_location': where}, where=where, function='ast-scan')
+    pkg = os.path.join(repo.REPO, 'edb/server/compiler'); FUNCS = ('describe', 'describe_params', 'describe_sql_result', 'describe_input_shape')
+    bad_store = []; bad_proto = []; sites = 0
+    for fn_ in sorted(os.listdir(pkg)):
+        if not fn_.endswith('.py') or fn_ == 'sertypes.py': continue
+        tree = ast.parse(open(os.path.join(pkg, fn_), encoding='utf-8').read())
+        parents = {}
+        for n in ast.walk(tree):
+            for ch in ast.iter_child_nodes(n): parents[ch] = n
+        for n in ast.walk(tree):
+            if isinstance(n, ast.Call) and isinstance(n.func, ast.Attribute) and n.func.attr in FUNCS and ast.unparse(n.func.value) == 'sertypes':
+                sites += 1
+                pv = [k for k in n.keywords if k.arg == 'protocol_version']
+                if not pv or 'protocol_version' not in ast.unparse(pv[0].value): bad_proto.append('%s line %d' % (fn_, n.lineno))
+                st = n
+                while st in parents and not isinstance(st, ast.stmt): st = parents[st]
+                def local_target(t): return isinstance(t, ast.Name) or (isinstance(t, (ast.Tuple, ast.List)) and all(local_target(e) for e in t.elts))
+                encl = st
+                while encl in parents and not isinstance(encl, (ast.FunctionDef, ast.AsyncFunctionDef)): encl = parents[encl]
+                okst = isinstance(encl, (ast.FunctionDef, ast.AsyncFunctionDef)) and (
+                    (isinstance(st, ast.Assign) and st.value is n and all(local_target(t) for t in st.targets)) or (isinstance(st, ast.Return) and st.value is n))
+                if okst and isinstance(st, ast.Assign):
+                    # the local must not be declared global / nonlocal in the enclosing function
+                    decl = {nm for g in ast.walk(encl) if isinstance(g, (ast.Global, ast.Nonlocal)) for nm in g.names}
+                    names = {e.id for t in st.targets for e in ast.walk(t) if isinstance(e, ast.Name)}
+                    if names & decl: okst = False
+                if not okst: bad_store.append('%s line %d: %s' % (fn_, n.lineno, ast.unparse(st).split('\n')[0][:100]))
+    out.append(ob('scan/describe-call-sites/per-request-protocol', 'edb/server/compiler: every sertypes.describe* call passes the protocol version of the request being compiled',
+                  sites >= 1 and not bad_proto, 'call sites without protocol_version=<...protocol_version>: %s (sites: %d)' % (bad_proto, sites), undecided=(sites == 0)))
+    out.append(ob('scan/describe-call-sites/not-cached', 'edb/server/compiler: the result of every sertypes.describe* call is bound to locals of the calling function or returned, never stored in module-level / object state',
+                  sites >= 1 and not bad_store, 'call sites storing the descriptor elsewhere: %s (sites: %d)' % (bad_store, sites), undecided=(sites == 0)))
     return out
 
 def scenarios(tier, seed, repo_root, outdir):
